@@ -33,6 +33,23 @@ try:
                             out.update(reproduced=True, inputs={'x0': x0.tolist(), 'g': g.tolist(), 'Delta': Delta}, observed=bad)
                             raise StopIteration
     fn = name.split('/')[0]
+    if fn == 'dykstra' and 'default of' in name:
+        # the defaults a caller gets when it passes none: read from the real signature and shown on a slowly converging instance (two half-planes at a small angle)
+        import inspect, os
+        from dfols.util import dykstra
+        doc = json.load(open(os.path.join(os.path.dirname(os.path.dirname(os.path.abspath(__file__))), 'contracts', 'param_table.json')))['defaults']
+        sig = inspect.signature(dykstra).parameters
+        cur = {'max_iter': sig['max_iter'].default, 'tol': sig['tol'].default}
+        want = {'max_iter': eval(doc['dykstra.max_iters']), 'tol': eval(doc['dykstra.d_tol'])}
+        out = {'replayable': True, 'reproduced': cur != want, 'tried': 1}
+        if cur != want:
+            a = np.array([-0.05, 1.0]); a /= np.linalg.norm(a)
+            P = [lambda x: np.array([x[0], max(x[1], 0.0)]), lambda x: x - max(0.0, float(np.dot(a, x))) * a]
+            x = dykstra(P, np.array([-1.0, 0.3]))
+            dist = max(0.0, -x[1], float(np.dot(a, x)))
+            out.update(inputs={'P': 'x2 >= 0 and x2 <= 0.05*x1', 'x0': [-1.0, 0.3]}, observed='dykstra() without keyword arguments runs with %r, documented defaults are %r; on this instance it returns a point %.3g outside a set' % (cur, want, dist))
+        print(json.dumps(out))
+        sys.exit(0)
     if fn == 'Controller.trust_region_step' and 'predicted reduction' in name:
         # the regularised step handed to the main loop: wrap the REAL method during regularised solves and recompute h(x) - m(d) independently
         import dfols
